@@ -7,4 +7,239 @@ import CasbinVerif.Proofs.Enforce
 namespace Casbin.C16
 open Casbin.Rbac
 
+/-! ### `eraseDups` -/
+
+theorem nodup_eraseDups (l : List String) : l.eraseDups.Nodup := by
+  generalize hn : l.length = n
+  induction n using Nat.strongRecOn generalizing l with
+  | _ n ih =>
+    cases l with
+    | nil => simp
+    | cons a as =>
+      rw [List.eraseDups_cons, List.nodup_cons]
+      refine ⟨?_, ?_⟩
+      · simp [List.mem_eraseDups, List.mem_filter]
+      · have hlt : (as.filter fun b => !b == a).length < n := by
+          have := List.length_filter_le (fun b => !b == a) as
+          simp only [List.length_cons] at hn
+          omega
+        exact ih _ hlt _ rfl
+
+/-! ### reflexive-transitive closure of a successor function -/
+
+/-- `r` is reachable from `u` by repeatedly taking a member of `next` -/
+inductive Star (next : String → List String) : String → String → Prop
+  | refl (u) : Star next u u
+  | step {u v r} : v ∈ next u → Star next v r → Star next u r
+
+theorem Star.tail {next : String → List String} {u v r : String}
+    (h : Star next u v) (hv : r ∈ next v) : Star next u r := by
+  induction h with
+  | refl u => exact .step hv (.refl _)
+  | step he _ ih => exact .step he (ih hv)
+
+theorem Star.mem_closed {next : String → List String} {S : List String}
+    (hcl : ∀ x ∈ S, ∀ y ∈ next x, y ∈ S) {a y : String} (h : Star next a y) (ha : a ∈ S) : y ∈ S := by
+  induction h with
+  | refl u => exact ha
+  | step he _ ih => exact ih (hcl _ ha _ he)
+
+/-! ### the work-list walk -/
+
+theorem walk_inv (next : String → List String) (start : String) (U : List String)
+    (hU : ∀ x y, y ∈ next x → y ∈ U) :
+    ∀ (fuel : Nat) (done queue res : List String),
+      start :: res = done ++ queue → (start :: res).Nodup → (∀ y ∈ res, y ∈ U) →
+      U.length + 1 ≤ fuel + done.length → (∀ y ∈ res, Star next start y) →
+      (∀ x ∈ done, ∀ y ∈ next x, y ∈ start :: res) →
+      ∃ l, walk next fuel queue (start :: res) res = some l ∧ (start :: l).Nodup ∧
+        (∀ y ∈ l, Star next start y) ∧ (∀ x ∈ start :: l, ∀ y ∈ next x, y ∈ start :: l) := by
+  intro fuel
+  induction fuel with
+  | zero =>
+    intro done queue res hsplit hnd hresU hfuel hreach hcl
+    cases queue with
+    | nil =>
+      refine ⟨res, by simp [walk], hnd, hreach, ?_⟩
+      rw [hsplit, List.append_nil]
+      rw [hsplit, List.append_nil] at hcl
+      exact hcl
+    | cons x q =>
+      exfalso
+      have h1 : res.length ≤ U.length :=
+        List.Nodup.length_le_of_subset (List.nodup_cons.1 hnd).2 (fun y hy => hresU y hy)
+      have h2 := congrArg List.length hsplit
+      simp only [List.length_cons, List.length_append] at h2
+      omega
+  | succ n ih =>
+    intro done queue res hsplit hnd hresU hfuel hreach hcl
+    cases queue with
+    | nil =>
+      refine ⟨res, by simp [walk], hnd, hreach, ?_⟩
+      rw [hsplit, List.append_nil]
+      rw [hsplit, List.append_nil] at hcl
+      exact hcl
+    | cons x q =>
+      have hx : x ∈ start :: res := by rw [hsplit]; simp
+      have hxreach : Star next start x := by
+        rcases List.mem_cons.1 hx with h | h
+        · rw [h]; exact .refl _
+        · exact hreach x h
+      simp only [walk]
+      generalize hnew : ((next x).eraseDups.filter fun r => !(start :: res).contains r) = new
+      have hnew_mem : ∀ y, y ∈ new ↔ y ∈ next x ∧ y ∉ start :: res := by
+        intro y
+        rw [← hnew]
+        simp [List.mem_filter, List.mem_eraseDups]
+      have hnew_nd : new.Nodup := by
+        rw [← hnew]
+        exact (nodup_eraseDups _).filter _
+      have key := ih (done ++ [x]) (q ++ new) (res ++ new)
+        (by rw [← List.cons_append, hsplit]; simp)
+        (by
+          rw [← List.cons_append, List.nodup_append]
+          refine ⟨hnd, hnew_nd, ?_⟩
+          intro a ha b hb hab
+          subst hab
+          exact ((hnew_mem a).1 hb).2 ha)
+        (by
+          intro y hy
+          rcases List.mem_append.1 hy with h | h
+          · exact hresU y h
+          · exact hU x y ((hnew_mem y).1 h).1)
+        (by simp only [List.length_append, List.length_cons, List.length_nil]; omega)
+        (by
+          intro y hy
+          rcases List.mem_append.1 hy with h | h
+          · exact hreach y h
+          · exact hxreach.tail ((hnew_mem y).1 h).1)
+        (by
+          intro z hz y hy
+          rw [← List.cons_append]
+          rcases List.mem_append.1 hz with h | h
+          · exact List.mem_append_left _ (hcl z h y hy)
+          · have hzx : z = x := by simpa using h
+            subst hzx
+            by_cases hs : y ∈ start :: res
+            · exact List.mem_append_left _ hs
+            · exact List.mem_append_right _ ((hnew_mem y).2 ⟨hy, hs⟩))
+      simpa only [List.cons_append] using key
+
+/-- the walk from `[start]` with `U.length + 1` rounds (every successor is in `U`) -/
+theorem walk_spec (next : String → List String) (start : String) (U : List String)
+    (hU : ∀ x y, y ∈ next x → y ∈ U) :
+    ∃ l, walk next (U.length + 1) [start] [start] [] = some l ∧ l.Nodup ∧
+      ∀ y, y ∈ l ↔ y ≠ start ∧ Star next start y := by
+  obtain ⟨l, h1, h2, h3, h4⟩ := walk_inv next start U hU (U.length + 1) [] [start] []
+    rfl (by simp) (by simp) (by simp) (by simp) (by simp)
+  refine ⟨l, h1, (List.nodup_cons.1 h2).2, ?_⟩
+  intro y
+  constructor
+  · intro hy
+    refine ⟨?_, h3 y hy⟩
+    intro e
+    subst e
+    exact (List.nodup_cons.1 h2).1 hy
+  · rintro ⟨hne, hs⟩
+    have := hs.mem_closed h4 (List.mem_cons_self ..)
+    rcases List.mem_cons.1 this with h | h
+    · exact absurd h hne
+    · exact h
+
+/-! ### the two successor functions against `ReachWithin` -/
+
+theorem mem_getRoles {rm : RM} {ds : List String} {x y : String} :
+    y ∈ rm.getRoles x ds ↔ (x, y, rm.dom ds) ∈ rm.links := by
+  simp only [RM.getRoles, List.mem_eraseDups]
+  exact mem_succs
+
+theorem mem_getUsers {rm : RM} {ds : List String} {x y : String} :
+    y ∈ rm.getUsers x ds ↔ (y, x, rm.dom ds) ∈ rm.links := by
+  simp only [RM.getUsers, List.mem_eraseDups, List.mem_map, List.mem_filter, Bool.and_eq_true,
+    beq_iff_eq]
+  constructor
+  · rintro ⟨⟨a, b, c⟩, ⟨hm, hb, hc⟩, ha⟩
+    simp only at ha hb hc
+    subst ha; subst hb; subst hc; exact hm
+  · intro h; exact ⟨(y, x, rm.dom ds), ⟨h, rfl, rfl⟩, rfl⟩
+
+theorem reachWithin_tail {links : List Link} {d : String} {n : Nat} {u v r : String}
+    (h : ReachWithin links d n u v) (hl : (v, r, d) ∈ links) : ReachWithin links d (n + 1) u r := by
+  induction h with
+  | refl n u => exact .step hl (.refl _ _)
+  | step he _ ih => exact .step he (ih hl)
+
+theorem star_roles_iff (rm : RM) (ds : List String) (u r : String) :
+    Star (fun x => rm.getRoles x ds) u r ↔ Reach rm.links (rm.dom ds) u r := by
+  constructor
+  · intro h
+    induction h with
+    | refl u => exact ⟨0, .refl _ _⟩
+    | step he _ ih =>
+      obtain ⟨n, hn⟩ := ih
+      exact ⟨n + 1, .step (mem_getRoles.1 he) hn⟩
+  · rintro ⟨n, hn⟩
+    induction hn with
+    | refl n u => exact .refl _
+    | step he _ ih => exact .step (mem_getRoles.2 he) ih
+
+theorem star_users_iff (rm : RM) (ds : List String) (r x : String) :
+    Star (fun y => rm.getUsers y ds) r x ↔ Reach rm.links (rm.dom ds) x r := by
+  constructor
+  · intro h
+    induction h with
+    | refl u => exact ⟨0, .refl _ _⟩
+    | step he _ ih =>
+      obtain ⟨n, hn⟩ := ih
+      exact ⟨n + 1, reachWithin_tail hn (mem_getUsers.1 he)⟩
+  · rintro ⟨n, hn⟩
+    induction hn with
+    | refl n u => exact .refl _
+    | step he _ ih => exact ih.tail (mem_getUsers.2 he)
+
+theorem implicitRoles_spec (rm : RM) (u : String) (ds : List String) :
+    ∃ l, implicitRoles rm u ds = some l ∧ l.Nodup ∧
+      ∀ r, r ∈ l ↔ r ≠ u ∧ Reach rm.links (rm.dom ds) u r := by
+  obtain ⟨l, h1, h2, h3⟩ := walk_spec (fun x => rm.getRoles x ds) u (rm.links.map (·.2.1))
+    (by
+      intro x y hy
+      exact List.mem_map.2 ⟨_, mem_getRoles.1 hy, rfl⟩)
+  rw [List.length_map] at h1
+  exact ⟨l, h1, h2, fun r => by rw [h3, star_roles_iff]⟩
+
+theorem implicitUsersForRole_spec (rm : RM) (r : String) (ds : List String) :
+    ∃ l, implicitUsersForRole rm r ds = some l ∧ l.Nodup ∧
+      ∀ x, x ∈ l ↔ x ≠ r ∧ Reach rm.links (rm.dom ds) x r := by
+  obtain ⟨l, h1, h2, h3⟩ := walk_spec (fun x => rm.getUsers x ds) r (rm.links.map (·.1))
+    (by
+      intro x y hy
+      exact List.mem_map.2 ⟨_, mem_getUsers.1 hy, rfl⟩)
+  rw [List.length_map] at h1
+  exact ⟨l, h1, h2, fun x => by rw [h3, star_users_iff]⟩
+
+/-! ### `mapM` in `Option` -/
+
+theorem mapM_option_none_iff {α β : Type} (f : α → Option β) (l : List α) :
+    l.mapM f = none ↔ ∃ x ∈ l, f x = none := by
+  induction l with
+  | nil => simp
+  | cons x xs ih =>
+    rw [List.mapM_cons]
+    cases hx : f x with
+    | none => simp [hx]
+    | some y =>
+      cases hxs : xs.mapM f with
+      | none =>
+        obtain ⟨z, hz, hfz⟩ := ih.1 hxs
+        simp only [Option.bind_eq_bind, Option.bind_some, Option.bind_none, true_iff]
+        exact ⟨z, List.mem_cons_of_mem _ hz, hfz⟩
+      | some ys =>
+        simp only [Option.bind_eq_bind, Option.bind_some, List.mem_cons]
+        constructor
+        · intro h; cases h
+        · rintro ⟨z, hz | hz, hfz⟩
+          · subst hz; rw [hx] at hfz; cases hfz
+          · have := ih.2 ⟨z, hz, hfz⟩
+            rw [hxs] at this; cases this
+
 end Casbin.C16
